@@ -170,6 +170,7 @@ struct Conf {
 
 fn confs(tier: Tier) -> Vec<Conf> {
     let mut out = vec![];
+    let mut base_configs = 0usize;
     for max_depth in [None, Some(0), Some(1), Some(2)] {
         for max_filesize in [None, Some(3u64)] {
             for follow in [false, true] {
@@ -177,7 +178,14 @@ fn confs(tier: Tier) -> Vec<Conf> {
                     for filter in [Filt::None, Filt::RejectN1, Filt::RejectDirs] {
                         for hidden in [true, false] {
                             for ignore_n0 in [false, true] {
-                                let threads: Vec<usize> = tier.pick(vec![2], vec![2, 4, 16]);
+                                // (thorough: 2 and 4 threads everywhere, 16 threads for
+                                // every 4th configuration — a 16-thread walk of a
+                                // three-node tree is mostly thread start-up)
+                                let mut threads: Vec<usize> = tier.pick(vec![2], vec![2, 4]);
+                                base_configs += 1;
+                                if tier == Tier::Thorough && base_configs % 4 == 0 {
+                                    threads.push(16);
+                                }
                                 for th in threads {
                                     out.push(Conf { max_depth, max_filesize, follow, same_fs, filter, hidden, ignore_n0, threads: th });
                                 }
@@ -812,7 +820,7 @@ pub fn run(args: &Args) -> ! {
         format!(
             "trees: every tree with <= 2 nodes{} over node kinds {{dir, small file, large file, hidden file, symlink->file, symlink->dir, symlink->ancestor (cycle), dangling symlink, symlink->directory on another device (/tmp vs /dev/shm)}}, canonical by non-decreasing parent index; configurations: max_depth {{inf,0,1,2}} x max_filesize {{inf,3}} x follow_links x same_file_system x entry filter {{none, reject one name, reject directories}} x hidden filter x an .ignore rule x threads {}; roots: the directory, the directory plus a file, a file, a symlink to the directory. Oracle, three-way: build() and build_parallel() yield the same entries exactly once with the same number of error entries, and both equal an independent recursive lister written from the documentation (reachable without passing a filtered-out directory; depth, size, same-file-system, symlink-following rules; a followed cycle is an error and the walk ends). Roots on two file systems (the tree on /dev/shm and a second root on /tmp holding an ignored directory with content), in both orders, for the configurations with an ignore rule or a filter. Layer 2 (nested ignore files): every tree of directories and files with 2..{} nodes x an .ignore file in the root or in any ONE directory x a rule naming any other node: the name is hidden exactly inside the holder's subtree, in both walkers (the single-threaded walker pops its ignore stack on leaving directories, by one or several levels at once).",
             if tier == Tier::Quick { " and every 11th tree with 3 nodes" } else { " and 3 nodes" },
-            if tier == Tier::Quick { "{2}" } else { "{2,4,16}" },
+            if tier == Tier::Quick { "{2}" } else { "{2,4} (and 16 for a quarter of the configurations)" },
             tier.pick(4, 5)
         ),
     );
